@@ -55,7 +55,9 @@ fn gen_hist(rng: &mut Rng, len: u64, nops: usize, unit: u64) -> Vec<LOp> {
 /// its last blocks and zeros in between (what the workload wrote), never materialised
 enum Plain<'a> {
     Mem(&'a [u8]),
-    Huge { len: u64, head: Vec<u8>, tail: Vec<u8> },
+    /// `mid`: (stream offset where the streamed piece's data starts, its period p): byte q of the middle is
+    /// ((q - start) % p) as u8; None = zeros
+    Huge { len: u64, head: Vec<u8>, tail: Vec<u8>, mid: Option<(u64, u64)> },
 }
 
 impl Plain<'_> {
@@ -72,9 +74,22 @@ impl Plain<'_> {
         let n = (n as u64).min(len - pos) as usize;
         match self {
             Plain::Mem(p) => p[pos as usize..pos as usize + n].to_vec(),
-            Plain::Huge { len, head, tail } => {
+            Plain::Huge { len, head, tail, mid } => {
                 let tail_at = len - tail.len() as u64;
-                (pos..pos + n as u64).map(|q| if q < head.len() as u64 { head[q as usize] } else if q >= tail_at { tail[(q - tail_at) as usize] } else { 0 }).collect()
+                (pos..pos + n as u64)
+                    .map(|q| {
+                        if q < head.len() as u64 {
+                            head[q as usize]
+                        } else if q >= tail_at {
+                            tail[(q - tail_at) as usize]
+                        } else {
+                            match mid {
+                                Some((start, p)) => ((q - start) % p) as u8,
+                                None => 0,
+                            }
+                        }
+                    })
+                    .collect()
             }
         }
     }
@@ -155,7 +170,7 @@ impl Prop for C11 {
         "exploration"
     }
     fn rule(&self) -> String {
-        "run = a finalized archive written by the library, whose layer plaintexts are obtained from the independent format model (decrypt / decompress by refmla); a layer reader stack is built exactly as `mlar info` builds it (header parsed, raw layer pinned after the header, then 0, 1 or 2 of the enabled layers) over the simulated source, and a seeded history of 30 operations (250 on the one scaled run in 40 whose plaintext spans 260..700 blocks or more than 65535 chunks) {seek from start / current / end to any target in [0, len] (biased to 0, len, len-k, chunk and block edges +-2), stream_position, read of 0/1/unit/unit+1/random bytes} is played against a std::io::Cursor over the same plaintext: identical positions, identical bytes, a read returns >= 1 byte unless asked for 0 or at the end. The 2 (thorough: 8) runs after the sweep stream a file of 2^32 + a few MiB zero bytes through the compression layer (alone / over encryption, production constants) and play 40-step histories with targets and relative distances around 2^31, 2^32, block edges and both ends against a model that holds the first and last blocks (decoded by the format model) and zeros in between. The first 1800 runs sweep the content length 0..299 on s0 (all four layer sets) and s1 (E, CE) so that every residue of the plaintext length modulo CHUNK (and lengths below one tag, exact multiples) and modulo BLOCK occurs. distinct_nontrivial = distinct (variant, layers, depth, length class vs CHUNK, vs BLOCK, op kinds seen) signatures.".into()
+        "run = a finalized archive written by the library, whose layer plaintexts are obtained from the independent format model (decrypt / decompress by refmla); a layer reader stack is built exactly as `mlar info` builds it (header parsed, raw layer pinned after the header, then 0, 1 or 2 of the enabled layers) over the simulated source, and a seeded history of 30 operations (250 on the one scaled run in 40 whose plaintext spans 260..700 blocks or more than 65535 chunks) {seek from start / current / end to any target in [0, len] (biased to 0, len, len-k, chunk and block edges +-2), stream_position, read of 0/1/unit/unit+1/random bytes} is played against a std::io::Cursor over the same plaintext: identical positions, identical bytes, a read returns >= 1 byte unless asked for 0 or at the end. The 2 (thorough: 8) runs after the sweep stream a file of 2^32 + a few MiB bytes (period 251, so that content 2^31 or 2^32 apart differs; zeros on one run in four) through the compression layer (alone / over encryption, production constants) and play 40-step histories with targets and relative distances around 2^31, 2^32, block edges and both ends against a model that holds the first and last blocks (decoded by the format model) and the periodic content in between. The first 1800 runs sweep the content length 0..299 on s0 (all four layer sets) and s1 (E, CE) so that every residue of the plaintext length modulo CHUNK (and lengths below one tag, exact multiples) and modulo BLOCK occurs. distinct_nontrivial = distinct (variant, layers, depth, length class vs CHUNK, vs BLOCK, op kinds seen) signatures.".into()
     }
     fn assumptions(&self) -> Vec<String> {
         vec!["seek targets are confined to [0, len] as the property states; a read may return fewer bytes than asked".into()]
@@ -176,7 +191,9 @@ impl Prop for C11 {
             let layers = if k % 2 == 0 { L_COMP } else { L_COMP | L_ENC };
             let cfg = ArcCfg { variant: "prodv".into(), layers, level: (k % 2) as u32, recipients: usize::from(layers & 1 != 0), reader: 0, rng_seed: run + 11, key_seed: 5 };
             let n = (1usize << 32) + rng.range(1, 9 << 20) as usize;
-            let ops = vec![WOp::Start { f: 0, name: Name::lit("zeros") }, WOp::Append { f: 0, data: Data::Zeros { n }, src: Src { sched: Sched::Full, short_by: 0, extra: 0, stream: true } }, WOp::End { f: 0 }, WOp::Add { name: Name::lit("tail"), data: Data::Text { n: 1000, seed: 4 }, src: Src::exact() }, WOp::Finalize];
+            // content with period 251 (prime: what lies 2^31 or 2^32 further is a different byte), or zeros now and then
+            let data = if k % 4 == 3 { Data::Zeros { n } } else { Data::Period { n, p: 251 } };
+            let ops = vec![WOp::Start { f: 0, name: Name::lit("zeros") }, WOp::Append { f: 0, data, src: Src { sched: Sched::Full, short_by: 0, extra: 0, stream: true } }, WOp::End { f: 0 }, WOp::Add { name: Name::lit("tail"), data: Data::Text { n: 1000, seed: 4 }, src: Src::exact() }, WOp::Finalize];
             let mut case = Case::new("C11", cfg, ops);
             case.params.insert("huge".into(), 1);
             case.params.insert("depth".into(), if layers & L_ENC != 0 { 2 } else { 1 });
@@ -294,7 +311,9 @@ impl Prop for C11 {
                 let head = crate::refmla::decompress_block(&comp, &cl, 0)?;
                 let mut tail = crate::refmla::decompress_block(&comp, &cl, nb - 2)?;
                 tail.extend(crate::refmla::decompress_block(&comp, &cl, nb - 1)?);
-                Ok(Plain::Huge { len, head, tail })
+                // the streamed piece's data starts after FileStart (17 + 5 name bytes) and its content header (17)
+                let mid = case.ops.iter().find_map(|o| if let WOp::Append { data: Data::Period { p, .. }, .. } = o { Some((17 + 5 + 17, *p as u64)) } else { None });
+                Ok(Plain::Huge { len, head, tail, mid })
             };
             match decode() {
                 Ok(p) => (p, if case.cfg.enc() { "compress-over-encrypt" } else { "compress" }),
